@@ -73,13 +73,14 @@ RAW = ("[{'tag_name': n, 'instance_id': 100 + i, 'symbol_type': st, 'symbol_addr
        "'external_access': 'Read/Write', 'dimensions': [0, 0, 0]} for i, (n, st) in enumerate(names)]")
 NAMES = ("[('Program:Main', 0x68), ('Task:Fast', 0x70), ('Map:Local', 0xC4), ('Cxn:Standard:1', 0xC4), ('plain', 0xC4), ('__hidden', 0xC4), "
          "('Local:1:I', 0xC4), ('Local:2:O', 0xC4), ('Rack:C', 0xC4), ('odd:name', 0xC4), ('sys_flagged', 0x10C4), ('_single', 0xC3), "
-         "('Local:1:I', 0xC4)]")
+         "('Local:1:I', 0xC4), ('Drive:I1', 0xC4), ('Drive:O1', 0xC4), ('Guard:2:SI', 0xC4), ('Guard:2:SO', 0xC4), ('Rack:3:C', 0xC4), "
+         "('weird:Task', 0xC4), ('a:Ix:y', 0xC4)]")
 contract(
     id="upload.isolate.controller", func=LD + "._isolate_user_tags", call="[x['tag_name'] for x in d._isolate_user_tags(raw, None)]",
     setup=[f"d = {LD}('10.0.0.1')", "d._info = {'programs': {}, 'tasks': {}, 'modules': {}}",
            "d._cache = {'tag_name:id': {}, 'id:struct': {}, 'handle:id': {}, 'id:udt': {}}", f"names = {NAMES}", f"raw = {RAW}"],
     ensures=["result == [n for (n, st) in names if spec.logix.user_visible(n, st)]", "list(d._info['programs']) == ['Main']",
-             "list(d._info['tasks']) == ['Fast']", "sorted(d._info['modules']) == ['Local', 'Rack']"],
+             "list(d._info['tasks']) == ['Fast']", "sorted(d._info['modules']) == ['Drive', 'Guard', 'Local', 'Rack', 'a']"],
     props=["C05"])
 contract(
     id="upload.isolate.program", func=LD + "._isolate_user_tags", call="[x['tag_name'] for x in d._isolate_user_tags(raw, 'Main')]",
